@@ -32,6 +32,10 @@ Definition Qlt_bool (a b : Q) : bool := negb (Qle_bool b a).
 Definition Qeqb_tol (tol a b : Q) : bool := Qle_bool (Qabs (a - b)) tol.
 Definition eq1_tol (tol : Q) (a b : list Q) : bool :=
   Nat.eqb (length a) (length b) && forallb (fun p => Qeqb_tol tol (fst p) (snd p)) (combine a b).
+(* per-element tolerances (the harness scales them with the magnitudes inside each output sample's window) *)
+Definition eq1_tolv (tols : list Q) (a b : list Q) : bool :=
+  Nat.eqb (length a) (length b) && Nat.eqb (length a) (length tols) &&
+  forallb (fun p => Qeqb_tol (snd p) (fst (fst p)) (snd (fst p))) (combine (combine a b) tols).
 Definition eq2_tol (tol : Q) (a b : list (list Q)) : bool :=
   Nat.eqb (length a) (length b) && forallb (fun p => eq1_tol tol (fst p) (snd p)) (combine a b).
 Definition eq3_tol (tol : Q) (a b : list (list (list Q))) : bool :=
@@ -423,9 +427,9 @@ Definition eqb_rres (tol : Q) (a b : rres) : bool :=
 (* ================================================================== correspondence cases *)
 
 Inductive case :=
-| CSmooth (xs : list Q) (owidth : Z) (et : bool) (tol : Q) (meta_ok : bool) (expect : list Q)
-| CMedian (xs : list Q) (even : bool) (expect : Q)
-| CMedianAxis (x : list (list Q)) (axis : Z) (expect : list Q)
+| CSmooth (xs : list Q) (owidth : Z) (et : bool) (tols : list Q) (meta_ok : bool) (expect : list Q)
+| CMedian (xs : list Q) (even : bool) (meta_ok : bool) (expect : Q)
+| CMedianAxis (x : list (list Q)) (axis : Z) (meta_ok : bool) (expect : list Q)
 | CMedFilt1 (xs : list Q) (width : Z) (expect : fres1)
 | CMedFilt2 (x : list (list Q)) (width : Z) (expect : fres2)
 | CUniqZ (xs : list Z) (idx : option (list Z)) (meta_ok : bool) (expect : list Z)
@@ -455,23 +459,23 @@ Definition uniq_indexed_spec {A} (neqb : A -> A -> bool) (dflt : A) (x : list A)
   let q := take A dflt x idx in
   if all_same neqb q then [lenZ q - 1] else map (getZ idx) (runs_last A neqb q).
 
-(* meta_ok: dtype / shape bookkeeping checked by the harness on the Python side (result dtype = input
-   dtype, etc.); part of the property, so it counts in the spec bit *)
+(* meta_ok: bookkeeping checked by the harness on the Python side: result dtype / shape, every caller-owned
+   array argument bit-identical after the call, same answer on a read-only input; counts in the spec bit *)
 Definition run_case (c : case) : Z :=
   match c with
-  | CSmooth xs ow et tol meta expect =>
+  | CSmooth xs ow et tols meta expect =>
       (* domain of the specification = hypothesis of C14_smooth_refines_spec: a non-empty array and either no
          edge_truncate (any width) or width_made_odd - 1 <= n.  It contains the property's "widths not
          exceeding N" (owidth <= n: owidth = n even gives width n+1, still inside) and its boundary
          owidth = n+1 odd; owidth >= n+2 with edge_truncate is outside (not a clamped boxcar). *)
       let dom := (1 <=? lenZ xs) && (negb et || (odd_width ow - 1 <=? lenZ xs)) in
-      verdict (eq1_tol tol (smooth xs ow et) expect)
-              (negb dom || (meta && eq1_tol tol (smooth_spec xs ow et) expect))
-  | CMedian xs even expect =>
-      verdict (Qeq_bool (median_plain xs even) expect) (Qeq_bool (median_spec xs even) expect)
-  | CMedianAxis x axis expect =>
+      verdict (eq1_tolv tols (smooth xs ow et) expect)
+              (negb dom || (meta && eq1_tolv tols (smooth_spec xs ow et) expect))
+  | CMedian xs even meta expect =>
+      verdict (Qeq_bool (median_plain xs even) expect) (meta && Qeq_bool (median_spec xs even) expect)
+  | CMedianAxis x axis meta expect =>
       verdict (eq1_tol 0 (median_axis x axis) expect)
-              (eq1_tol 0 (if axis =? 0 then map (fun j => median_spec (column j x) true) (seq 0 (ncols x))
+              (meta && eq1_tol 0 (if axis =? 0 then map (fun j => median_spec (column j x) true) (seq 0 (ncols x))
                           else map (fun r => median_spec r true) x) expect)
   | CMedFilt1 xs width expect =>
       let dom := Z.odd width && (1 <=? width) && (width <=? lenZ xs) in
